@@ -84,7 +84,9 @@ IsNumberedInstance(cfg, chars) == HeadOf(cfg, chars) # {}
 \* ---------------------------------------------------------------- scope
 (* Scope(cfg) = variables + unshadowed constants + numbered-variable instances - instructor variables - sibling
    variables.  It is an infinite set (numbered instances), so it is given as a membership test.  "where" is the
-   box role: the summation variable exists in the summand only. *)
+   box role: the summation variable exists in the summand only.  cfg.sibs are the sibling inputs of an ordered list;
+   they are outside the student's scope whether the author's configuration mentions them in an answer, only in a
+   dependent sampling set, only through a chain of such sets, or not at all. *)
 InScopeVar(cfg, nm, chars, where) ==
   /\ nm \notin cfg.instr
   /\ nm \notin cfg.sibs
@@ -218,11 +220,29 @@ Ev(t, env) ==
   ELSE IF t.t = "pow" THEN Pow(Ev(t.a, env), Ev(t.b, env), t.neg)
   ELSE Bin(t.t, Ev(t.a, env), Ev(t.b, env))
 
-\* value of a name in the author's scope (instances of a numbered variable take the value of their head)
-NameValue(cfg, nm, chars) ==
-  IF nm \in DOMAIN cfg.val THEN cfg.val[nm]
+(* value of a name in the author's scope.  A variable with a DEPENDENT sampling set (cfg.deps: set of [s |-> name,
+   box |-> its formula]) has the value of its formula, which may mention other dependent variables (chains) and
+   sibling variables: this is the second route, next to the answers themselves, by which a sibling input reaches a
+   grader.  Instances of a numbered variable take the value of their head. *)
+DepOf(cfg, nm) == {h \in cfg.deps : h.s = nm}
+RECURSIVE NameValueF(_, _, _, _)
+NameValueF(cfg, nm, chars, fuel) ==
+  LET ds == DepOf(cfg, nm) IN
+  IF ds # {} THEN
+     (IF fuel = 0 THEN NPV
+      ELSE LET bx == (CHOOSE h \in ds : TRUE).box
+               p == Parse(TokensOf(bx)) IN
+           IF p.c # "tree" THEN NPV
+           ELSE Ev(p.t, [n \in UVars(p.t) |-> NameValueF(cfg, n, CharsOfName(<<bx>>, n), fuel - 1)]))
+  ELSE IF nm \in DOMAIN cfg.val THEN cfg.val[nm]
   ELSE LET hs == HeadOf(cfg, chars) IN
        IF hs # {} THEN cfg.val[(CHOOSE h \in hs : TRUE).s] ELSE NPV
+NameValue(cfg, nm, chars) == NameValueF(cfg, nm, chars, 4)
+\* the sibling inputs a configuration reaches, through its answers or through (chains of) dependent sampling sets
+NamesInBox(bx) == {bx[i].tok.s : i \in {j \in 1..Len(bx) : bx[j].tok.k = "name"}}
+SiblingsReached(cfg) ==
+  cfg.sibs \cap (UNION {NamesInBox(h.box) : h \in cfg.deps}
+               \cup UNION {UNION {NamesInBox(cfg.answers[i].boxes[b]) : b \in 1..Len(cfg.answers[i].boxes)} : i \in 1..Len(cfg.answers)})
 EnvOf(cfg, boxes, ps) ==
   LET names == UNION {UVars(ps[b].t) : b \in 1..Len(ps)} IN
   [nm \in names |-> NameValue(cfg, nm, CharsOfName(boxes, nm))]
@@ -381,6 +401,9 @@ LawAuthorExempt(cfg) ==
      /\ AllTrees(aps)
      /\ BadVars(cfg, ab, aps, FALSE) = {} /\ BadFuncs(cfg, aps) = {}
      /\ ~IsBad(ValueOf(cfg, ab, aps))
+\* no sibling input is in the student's scope, by whichever route (answer, dependent sampling set, chain) it is reached
+LawSiblingsHidden(cfg) ==
+  \A nm \in cfg.sibs : \A where \in {"main", "limit", "summand"} : ~InScopeVar(cfg, nm, <<>>, where)
 (* restrictions only ever remove credit: with every restriction taken out of the configuration the same submission
    has the same scope and worth, is not restricted, and is graded as the answers say *)
 Open(cfg) == [cfg EXCEPT !.wmode = "off", !.white = {}, !.black = {}, !.required = {}, !.forbidden = {}]
